@@ -17,17 +17,24 @@ TRUSTED = [
     'correspondence harness: generators, rank mapping, recording callables',
 ]
 
-def _impl_eval(ranges, r):
-    """value/deriv/deriv2 of the real Multi_Range_Potential_Form for ranges [(marker, start, id)]"""
+def _impl_eval(ranges, r, plain=()):
+    """value/deriv/deriv2 of the real Multi_Range_Potential_Form for ranges [(marker, start, id)]; the ranges whose id is in
+    `plain` are bare callables without .deriv/.deriv2: their derivative is the numerical one of that range's own (constant)
+    function, i.e. exactly 0.0"""
     from atsim.potentials._multi_range_potential_form import create_Multi_Range_Potential_Form, Multi_Range_Defn
     class F(object):
         def __init__(self, i): self.i = i
         def __call__(self, r): return 1000.0 + self.i
         def deriv(self, r): return 2000.0 + self.i
         def deriv2(self, r): return 3000.0 + self.i
-    defs = [Multi_Range_Defn(m, s, F(i)) for (m, s, i) in ranges]
+    class P(object):
+        def __init__(self, i): self.i = i
+        def __call__(self, r): return 1000.0 + self.i
+    defs = [Multi_Range_Defn(m, s, (P(i) if i in plain else F(i))) for (m, s, i) in ranges]
     mr = create_Multi_Range_Potential_Form(*defs)
-    return [mr(r), mr.deriv(r), mr.deriv2(r)]
+    d = mr.deriv(r) if hasattr(mr, 'deriv') else 0.0
+    d2 = mr.deriv2(r) if hasattr(mr, 'deriv2') else 0.0
+    return [mr(r), d, d2]
 
 def _impl_eval_config(ranges, r):
     """the same through a potable definition: `[Pair] A-B : >=s1 as.constant v1 >s2 as.constant v2 ...`
@@ -65,7 +72,8 @@ def gen_case(rng, maxn=6, allow_inf=True):
     route = 'api'
     if all(s != float('-inf') for (_, s, _) in ranges) and rng.random() < 0.3:
         route = 'config'
-    return {'ranges': ranges, 'r': r, 'route': route}
+    plain = sorted(i for i in range(n) if rng.random() < 0.35) if (route == 'api' and rng.random() < 0.4) else []
+    return {'ranges': ranges, 'r': r, 'route': route, 'plain': plain}
 
 def dup_key(case):
     keys = [(m, s) for (m, s, _) in case['ranges']]
@@ -80,23 +88,25 @@ def run_impl(case):
     try:
         if case['route'] == 'config':
             return _impl_eval_config(rs, case['r'])
-        return _impl_eval(rs, case['r'])
+        return _impl_eval(rs, case['r'], tuple(case.get('plain', [])))
     except Exception as e:
         return ['EXC', type(e).__name__, str(e)[:80]]
 
 PRE = '''From V Require Import lib.Common lib.RangeTypes gen.GenC08 model.MultiRange.
 Local Open Scope Z_scope.
-Definition ev (rs : list rdef) (r : Z) : Z * Z * Z :=
-  (mr_eval 0 (fun i => 1000 + Z.of_nat i) rs r, mr_eval 0 (fun i => 2000 + Z.of_nat i) rs r, mr_eval 0 (fun i => 3000 + Z.of_nat i) rs r).
-Definition agree (c : list rdef * Z) (o : Z * Z * Z) : bool :=
-  let '(a, b, d) := ev (fst c) (snd c) in let '(a', b', d') := o in (a =? a') && (b =? b') && (d =? d').
+(* ranges whose id is in `plain` have no analytic derivative: gradient(form) of their constant function is 0 *)
+Definition ev (rs : list rdef) (r : Z) (plain : list nat) : Z * Z * Z :=
+  let an (base : Z) (i : nat) := if existsb (Nat.eqb i) plain then 0 else base + Z.of_nat i in
+  (mr_eval 0 (fun i => 1000 + Z.of_nat i) rs r, mr_eval 0 (an 2000) rs r, mr_eval 0 (an 3000) rs r).
+Definition agree (c : list rdef * Z * list nat) (o : Z * Z * Z) : bool :=
+  let '(a, b, d) := ev (fst (fst c)) (snd (fst c)) (snd c) in let '(a', b', d') := o in (a =? a') && (b =? b') && (d =? d').
 '''
 
 def coq_case(case):
     rk = _ranks(case)
     rs = coq_list(['{| r_type := %s; r_start := %s; r_id := %s |}' % ('GE' if m == '>=' else 'GT', z(rk[s]), nat(i))
                    for (m, s, i) in case['ranges']])
-    return '(%s, %s)' % (rs, z(rk[case['r']]))
+    return '(%s, %s, %s)' % (rs, z(rk[case['r']]), coq_list([nat(i) for i in case.get('plain', [])]))
 
 def correspond(ctx):
     rng = ctx['rng']
@@ -164,7 +174,8 @@ def oracle(case):
     if v == 0.0:
         return ['ranges %r contain r=%r but nothing was selected' % (cont, r)]
     sel = int(v - 1000)
-    if (d, d2) != (2000.0 + sel, 3000.0 + sel):
+    want_d = (0.0, 0.0) if sel in case.get('plain', []) else (2000.0 + sel, 3000.0 + sel)
+    if (d, d2) != want_d:
         fails.append('derivatives come from a different range than the value: %r' % ((v, d, d2),))
     selr = [x for x in ranges if x[2] == sel]
     if not selr or selr[0] not in cont:
@@ -181,7 +192,7 @@ def oracle(case):
         if len(perms) > 24:
             perms = random.Random(len(ranges)).sample(perms, 24)
         for p in perms:
-            o2 = _impl_eval(list(p), r)
+            o2 = _impl_eval(list(p), r, tuple(case.get('plain', [])))
             if o2 != o:
                 fails.append('result depends on listing order: %r gives %r, %r gives %r' % (ranges, o, list(p), o2)); break
     return fails
